@@ -22,6 +22,7 @@ META = {
     "assumptions": ["index + small constant does not overflow 32 bits"],
 }
 META["explanation"] += " " + '(INV-above) a clearing loop that precedes `index_ = E` clears every word above E (E-ZONE state at the assignment: a proof of loop bound >= E + 1 is a violation). (SB-clearabove) every non-constructor caller of a doOperation kind that sets index_ = 0 (Set, And; the kind is read from the explicit template argument the exporter records) clears the words above the new index_ afterwards. (SB-normalise) the members that can zero high words (Subtract, Multiply, Divide, ShiftRight) lower index_ under a zero test of a storage word.'
+META["explanation"] += " " + '(SB-raise) Add and the |= arms assign index_ = E only under E > index_. SB-clearabove additionally: the stores of the replacing kind (Set) are unconditional inside their arm. (RV-use, shared) a moved-from BigInt is really emptied.'
 
 B = "Qentem::BigInt::"
 NOT_DECIDED = {
@@ -205,6 +206,9 @@ def run(ctx):
     rules.append(rule_clear_above(ctx, m, zone_ct))
     rules.append(rule_lowering_callers(ctx, m))
     rules.append(rule_normalise(ctx, m))
+    rules.append(rule_raise_only(ctx, m))
+    from rules.common import rule_rvalue_use
+    rules.append(rule_rvalue_use(ctx, m, floor=3, files=["BigInt.hpp"]))
     return rules
 
 
@@ -303,6 +307,28 @@ def rule_lowering_callers(ctx, m):
         r.broke("doOperation: no arm assigns index_ = 0")
         return r
     r.notes.append("index-lowering kinds found in doOperation: %s" % sorted(lowering))
+    # the replacing kind (Set) overwrites every word it covers: its stores are unconditional inside their arm -- a skipped zero
+    # word of the new number would keep the old content of that word of the object (operator= clears only ABOVE the new index_)
+    for f in does:
+        par = f.parents()
+        for sw in astq.nodes_of(f, "SwitchStmt"):
+            for labels, stmts in astq.switch_arms(f, sw):
+                names = [(l[0] or "").split("::")[-1] for l in labels]
+                if names and names != ["default"] and names != [""]:
+                    continue
+                arm_nodes = set(x for s_ in stmts for x in f.walk(s_))
+                for x in sorted(arm_nodes):
+                    n = f.nodes[x]
+                    if n["k"] == "BinaryOperator" and n["op"] == "=" and f.text(n["ch"][0]).replace("this.", "").startswith("storage_["):
+                        cond_anc = None
+                        up = par.get(x)
+                        while up is not None and up in arm_nodes:
+                            if f.nodes[up]["k"] in ("IfStmt", "ConditionalOperator"):
+                                cond_anc = up
+                            up = par.get(up)
+                        ctx.note_fn(f)
+                        r.ob(f.sig, "Set arm: %s" % f.text(x)[:50], cond_anc is None, "the word is stored unconditionally" if cond_anc is None else
+                             "the store is skipped when `%s` is false: that word of the object keeps its previous content inside the new number" % f.text(f.nodes[cond_anc]["cond"])[:50], f.loc(x))
     for f in m.functions:
         if f.inst or not f.cfg or f.cls != "Qentem::BigInt":
             continue
@@ -381,4 +407,53 @@ def rule_normalise(ctx, m):
         r.ob(f.sig, "index_ after %s" % f.name, ok, "index_ is lowered under a zero test of a storage word (%s)" % f.text(norm)[:40] if ok else
              "nothing in this member lowers index_ when the words it produced are zero%s: after a result of zero IsZero() is false and NotZero() true" % (" (Clear() is only one of its paths)" if ends_clear else ""),
              "Include/BigInt.hpp:%d" % f.line)
+    return r
+
+
+
+def rule_raise_only(ctx, m):
+    """SB-raise: the operations that cannot shrink a non-negative number (Add, |=) may move index_ upwards only: every assignment
+    index_ = E in Add() and in the Or arms of doOperation is guarded by E > index_ (a literal 0 on the wrap-around path of Add
+    is the overflow case the property excludes).  An unguarded assignment lowers index_ when the object is longer than the
+    operand, and the object forgets its upper words."""
+    r = Rule("SB-raise", "Add and |= only ever raise index_ (index_ = E under E > index_)", floor=2)
+    sites = []
+    for f in m.functions:
+        if f.inst or not f.cfg or f.cls != "Qentem::BigInt":
+            continue
+        base = f.name.split("<")[0]
+        if base == "Add":
+            sites.append((f, None, "Add"))
+        elif base == "doOperation":
+            for sw in astq.nodes_of(f, "SwitchStmt"):
+                for labels, stmts in astq.switch_arms(f, sw):
+                    if [(l[0] or "").split("::")[-1] for l in labels] == ["Or"]:
+                        sites.append((f, stmts, "|= arm"))
+    if not sites:
+        r.broke("BigInt::Add / the Or arms of doOperation were not found")
+        return r
+    for (f, stmts, what) in sites:
+        par = f.parents()
+        nodes = [x for s_ in stmts for x in f.walk(s_)] if stmts is not None else list(f.walk())
+        for x in nodes:
+            n = f.nodes[x]
+            if not (n["k"] == "BinaryOperator" and n["op"] == "=" and f.text(n["ch"][0]).replace("this.", "") == "index_"):
+                continue
+            if f.const_value(n["ch"][1]) is not None:
+                continue
+            ctx.note_fn(f)
+            E = f.text(n["ch"][1])
+            guarded = False
+            up = par.get(x)
+            child = x
+            while up is not None:
+                un = f.nodes[up]
+                if un["k"] == "IfStmt" and child == un.get("then"):
+                    ct = f.text(un["cond"]).replace("this.", "").replace(" ", "")
+                    if ("%s>index_" % E.replace(" ", "")) in ct or ("index_<%s" % E.replace(" ", "")) in ct:
+                        guarded = True
+                child = up
+                up = par.get(up)
+            r.ob(f.sig, "%s: index_ = %s" % (what, E), guarded, "raised only: the assignment is under `%s > index_`" % E if guarded else
+                 "index_ is assigned without the test `%s > index_`: when the object is longer than the operand index_ is lowered and the upper words are forgotten" % E, f.loc(x))
     return r
